@@ -126,6 +126,38 @@ pub proof fn lemma_sym_in(vs: Seq<Sym>, v: Sym)
     }
 }
 
+// [A8] Peekable<slice::Iter<T>> is a cursor over a sequence
+#[verifier::external_type_specification]
+#[verifier::external_body]
+pub struct ExIoError(std::io::Error);
+#[verifier::external_type_specification]
+pub struct ExErrorKind(std::io::ErrorKind);
+#[verifier::external_type_specification]
+#[verifier::external_body]
+#[verifier::reject_recursive_types(I)]
+pub struct ExPeekable<I: Iterator>(Peekable<I>);
+
+// [N5] error construction: message text is dropped, the fact that an Err is returned is kept
+#[verifier::external_body]
+pub fn io_error_new<M>(k: std::io::ErrorKind, m: M) -> std::io::Error { unimplemented!() }
+#[verifier::external_body]
+pub fn opaque_string() -> String { unimplemented!() }
+
+pub uninterp spec fn rest<I: Iterator>(p: Peekable<I>) -> Seq<I::Item>;
+
+pub assume_specification<I: Iterator> [Peekable::<I>::peek] (p: &mut Peekable<I>) -> (r: Option<&I::Item>)
+    ensures rest(*final(p)) == rest(*old(p)),
+        match r { Some(t) => rest(*final(p)).len() > 0 && *t == rest(*final(p))[0], None => rest(*final(p)).len() == 0 };
+
+pub assume_specification<I: Iterator> [<Peekable<I> as Iterator>::next] (p: &mut Peekable<I>) -> (r: Option<I::Item>)
+    ensures
+        match r { Some(t) => rest(*old(p)).len() > 0 && t == rest(*old(p))[0] && rest(*final(p)) == rest(*old(p)).subrange(1, rest(*old(p)).len() as int), None => rest(*old(p)).len() == 0 && rest(*final(p)) == rest(*old(p)) };
+
+/// the tokens still ahead of the reader
+pub open spec fn toks(p: Peekable<Iter<'_, SymbolicBDDToken>>) -> Seq<SymbolicBDDToken> {
+    Seq::new(rest(p).len(), |i: int| *rest(p)[i])
+}
+
 // [A14] output macros: effect on stdout/stderr not modelled
 pub assume_specification [std::io::_eprint] (args: core::fmt::Arguments<'_>);
 pub assume_specification [std::io::_print] (args: core::fmt::Arguments<'_>);
